@@ -44,6 +44,13 @@ def rows : List Row := [
   ⟨"F03g", "ValueError", "datatypes/untyped.py:__int__", ["untypedAtomic"], 0⟩,
   ⟨"F03g", "ValueError", "helpers.py:get_double", ["floor", "ceiling", "untypedAtomic"], 0⟩,
   ⟨"F03g", "ValueError", "namespaces.py:get_expanded_name", ["instance", "castable", "cast", "treat"], 0⟩,
+  ⟨"F03g", "TypeError", "collations.py:__init__", ["compare"], 0⟩,
+  ⟨"F03g", "IndexError", "xpath_tokens/functions.py:validated_result", ["for-each"], 0⟩,
+  ⟨"F03g", "TypeError", "serialization.py:serialize_to_xml", ["serialize"], 0⟩,
+  ⟨"F03g", "AssertionError", "xpath2/_xpath2_constructors.py:evaluate__datetime_stamp_type", ["dateTimeStamp"], 0⟩,
+  ⟨"F03g", "IndexError", "xpath30/xpath30_helpers.py:format_digits", ["format-integer"], 0⟩,
+  ⟨"F03g", "TypeError", "xpath30/xpath30_helpers.py:roman_num", ["format-integer"], 0⟩,
+  ⟨"F03g", "AssertionError", "xpath_tokens/functions.py:to_partial_function", ["?"], 0⟩,
   -- F03h: numeric / temporal overflow and runaway computations are not caught
   ⟨"F03h", "OverflowError", "xpath2/_xpath2_operators.py:evaluate__range_expression", ["to"], 0⟩,
   ⟨"F03h", "OverflowError", "xpath30/_xpath30_functions.py:evaluate__exp", ["exp"], 0⟩,
@@ -56,6 +63,11 @@ def rows : List Row := [
   ⟨"F03h", "OverflowError", "xpath30/xpath30_helpers.py:roman_num", ["format-integer"], 0⟩,
   ⟨"F03h", "MemoryError", "xpath30/xpath30_helpers.py:roman_num", ["format-integer"], 0⟩,
   ⟨"F03h", "OverflowError", "datatypes/datetime.py:fromduration", ["dayTimeDuration"], 0⟩,
+  ⟨"F03h", "MemoryError", "xpath2/_xpath2_operators.py:evaluate__range_expression", ["to"], 0⟩,
+  ⟨"F03h", "OverflowError", "xpath30/_xpath30_functions.py:evaluate__exp10", ["exp10"], 0⟩,
+  ⟨"F03h", "Hang", "xpath30/_xpath30_functions.py:evaluate__pow", ["pow"], 0⟩,
+  ⟨"F03h", "OverflowError", "datatypes/datetime.py:_compare_durations", ["dayTimeDuration"], 0⟩,
+  ⟨"F03h", "Hang", "xpath2/_xpath2_functions.py:evaluate__round_half_to_even", ["round-half-to-even"], 0⟩,
   -- F03i: a URI argument is handed to urllib without validation
   ⟨"F03i", "InvalidURL", "xpath30/_xpath30_functions.py:evaluate__unparsed_text", ["unparsed-text", "unparsed-text-lines"], 0⟩,
   ⟨"F03i", "InvalidURL", "xpath30/_xpath30_functions.py:evaluate__unparsed_text_available", ["unparsed-text-available"], 0⟩,
